@@ -1368,7 +1368,14 @@ void partition_resize_helper(struct cds_lfht *ht, unsigned long i,
 	if (start == 0 && nr_threads > 0)
 		return;
 fallback:
+	/*
+	 * The resize mutex is taken with the (QSBR) thread offline, because
+	 * it is held across grace periods. Be online while accessing the
+	 * table.
+	 */
+	ht->flavor->thread_online();
 	fct(ht, i, start, len);
+	ht->flavor->thread_offline();
 }
 
 /*
@@ -2195,6 +2202,8 @@ void resize_target_update_count(struct cds_lfht *ht,
 
 void cds_lfht_resize(struct cds_lfht *ht, unsigned long new_size)
 {
+	int was_online;
+
 	resize_target_update_count(ht, new_size);
 
 	/*
@@ -2202,9 +2211,19 @@ void cds_lfht_resize(struct cds_lfht *ht, unsigned long new_size)
 	 */
 	uatomic_store(&ht->resize_initiated, 1);
 
+	/*
+	 * The resize mutex is held across synchronize_rcu(): an online QSBR
+	 * thread must not wait for it, nor hold it, or it deadlocks with
+	 * the resize worker thread.
+	 */
+	was_online = ht->flavor->read_ongoing();
+	if (was_online)
+		ht->flavor->thread_offline();
 	mutex_lock(&ht->resize_mutex);
 	_do_cds_lfht_resize(ht);
 	mutex_unlock(&ht->resize_mutex);
+	if (was_online)
+		ht->flavor->thread_online();
 }
 
 static
@@ -2215,9 +2234,11 @@ void do_resize_cb(struct urcu_work *work)
 	struct cds_lfht *ht = resize_work->ht;
 
 	ht->flavor->register_thread();
+	ht->flavor->thread_offline();
 	mutex_lock(&ht->resize_mutex);
 	_do_cds_lfht_resize(ht);
 	mutex_unlock(&ht->resize_mutex);
+	ht->flavor->thread_online();
 	ht->flavor->unregister_thread();
 	poison_free(ht->alloc, work);
 }
